@@ -360,7 +360,9 @@ EXPORT void* cplx_fft_precomp_get_buffer(const CPLX_FFT_PRECOMP* tables, uint32_
 EXPORT void cplx_fft_simple(uint32_t m, void* data) {
   static CPLX_FFT_PRECOMP* p[31] = {0};
   CPLX_FFT_PRECOMP** f = p + log2m(m);
+  if (!*f) SPQLIOS_VERIF_EVENT(1, 7, log2m(m), 0, 0, 0);
   if (!*f) *f = new_cplx_fft_precomp(m, 0);
+  SPQLIOS_VERIF_EVENT(2, 7, log2m(m), (*f)->m, 0, 0);
   (*f)->function(*f, data);
 }
 
